@@ -7,7 +7,9 @@ package engine
 import (
 	"fmt"
 	"math"
+	"runtime"
 	"sort"
+	"strings"
 
 	"github.com/openGemini/openGemini/verifsim/core"
 	"go.etcd.io/etcd/raft/v3/raftpb"
@@ -335,4 +337,110 @@ func (r *pwRun) checkAllReplicas(after string) *core.Violation {
 		}
 	}
 	return nil
+}
+
+// ---- where a client call without outcome stands ------------------------------------------------
+
+// pwStuckCalls describes, from a dump of all goroutines of the process, where the
+// store-side calls of client writes (EngineImpl.WriteToRaft) stand that have not
+// returned: stuckAt is the matcher attribute (innermost frames of the code under
+// test, outermost last, with the kind of wait of the goroutine; several distinct
+// places are joined by "|"), detail the stacks (function and file:line only - no
+// goroutine numbers, arguments or addresses, so that the text is the same in every
+// process) of those goroutines and of the goroutines they can be waiting for: the
+// partitions' propose loops (RaftNode.proposals) and etcd-raft's node.run.
+func pwStuckCalls() (stuckAt, detail string) {
+	buf := make([]byte, 16<<20)
+	buf = buf[:runtime.Stack(buf, true)]
+	type gr struct {
+		wait   string
+		frames []string // "func file:line"
+	}
+	const mod = "github.com/openGemini/openGemini/"
+	var calls, others []gr
+	for _, blk := range strings.Split(string(buf), "\n\n") {
+		ls := strings.Split(blk, "\n")
+		if len(ls) < 3 || !strings.HasPrefix(ls[0], "goroutine ") {
+			continue
+		}
+		g := gr{}
+		if a, b := strings.Index(ls[0], "["), strings.LastIndex(ls[0], "]"); a >= 0 && b > a {
+			g.wait = ls[0][a+1 : b]
+			// "chan send, 2 minutes, synctest bubble 7": only the kind of wait
+			if k := strings.Index(g.wait, ","); k >= 0 {
+				g.wait = g.wait[:k]
+			}
+			g.wait = strings.TrimSuffix(g.wait, " (durable)")
+		}
+		for i := 1; i+1 < len(ls); i += 2 {
+			f := ls[i]
+			if strings.HasPrefix(f, "created by ") {
+				break
+			}
+			if k := strings.LastIndex(f, "("); k > 0 {
+				f = f[:k]
+			}
+			loc := strings.TrimSpace(ls[i+1])
+			if k := strings.Index(loc, " +0x"); k >= 0 {
+				loc = loc[:k]
+			}
+			if k := strings.LastIndex(loc, "/"); k >= 0 {
+				loc = loc[k+1:]
+			}
+			g.frames = append(g.frames, f+" "+loc)
+		}
+		all := strings.Join(g.frames, "\n")
+		switch {
+		case strings.Contains(all, "(*EngineImpl).WriteToRaft "):
+			calls = append(calls, g)
+		case strings.Contains(all, "raftconn.(*RaftNode).proposals "), strings.Contains(all, "raft/v3.(*node).run "):
+			others = append(others, g)
+		}
+	}
+	seen := map[string]bool{}
+	var ats []string
+	var b strings.Builder
+	show := func(title string, g gr) {
+		fmt.Fprintf(&b, "%s [%s]\n", title, g.wait)
+		for _, f := range g.frames {
+			if strings.HasPrefix(f, "runtime.") || strings.HasPrefix(f, "testing/synctest.") {
+				continue
+			}
+			fmt.Fprintf(&b, "    %s\n", strings.TrimPrefix(f, mod))
+		}
+	}
+	for _, g := range calls {
+		var fr []string
+		for _, f := range g.frames {
+			if !strings.HasPrefix(f, mod) || strings.Contains(f, "verifsim") || strings.Contains(f, "zz_verif") || strings.Contains(f, ".pw") || strings.Contains(f, "(*pwRun)") {
+				continue
+			}
+			f = strings.TrimPrefix(f, mod)
+			if k := strings.Index(f, " "); k >= 0 {
+				f = f[:k]
+			}
+			fr = append(fr, f)
+			if len(fr) == 3 {
+				break
+			}
+		}
+		at := strings.Join(fr, "<") + "[" + g.wait + "]"
+		if !seen[at] {
+			seen[at] = true
+			ats = append(ats, at)
+		}
+	}
+	sort.Strings(ats)
+	sort.SliceStable(calls, func(i, j int) bool { return strings.Join(calls[i].frames, "") < strings.Join(calls[j].frames, "") })
+	sort.SliceStable(others, func(i, j int) bool { return strings.Join(others[i].frames, "") < strings.Join(others[j].frames, "") })
+	for _, g := range calls {
+		show("store-side call of a client write", g)
+	}
+	for _, g := range others {
+		show("goroutine", g)
+	}
+	if len(ats) == 0 {
+		return "no_store_side_call", b.String()
+	}
+	return strings.Join(ats, "|"), b.String()
 }
